@@ -210,6 +210,10 @@ func (f *Frame) setPayloadLength(n int) *Frame {
 }
 
 func (f *Frame) SetPayload(b []byte) *Frame {
+	// A reused frame may have been shrunk below the maximum header size by an
+	// earlier, shorter payload; the length field needs room for up to 8 bytes.
+	*f = util.ExtendSlice(*f, frameMaxHeaderLength)
+
 	f.setPayloadLength(len(b)) // set the length as it's used by `payloadOffset`.
 
 	*f = util.ExtendSlice(*f, f.payloadOffset()+len(b))
